@@ -56,7 +56,7 @@ def floors(tier):
     return {"cases": 20000, "no_checker_cases": 3000, "with_checker_cases": 10000, "unknown_name_cases": 1000,
             "nonstring_builtin_cases": 2000, "custom_return_cases": 300, "listed_raise_cases": 100,
             "unlisted_raise_cases": 1000, "subclass_raise_cases": 100, "format_errors_seen": 2000, "nested_cases": 3000, "stateful_sequence_calls": 3000, "reregistration_cases": 60,
-            "raise_cases_under_applicators": 1000, "metaschema_format_cases": 200, "late_registration_cases": 40, "passing_checks_on_unrenderable_instances": 150}
+            "raise_cases_under_applicators": 1000, "metaschema_format_cases": 200, "late_registration_cases": 40, "passing_checks_on_unrenderable_instances": 150, "checker_passed_by_position": 2000}
 
 
 def wrappers(d, fmt):
@@ -100,6 +100,19 @@ def check_builtin(ctx, d, name, checker, cname, inst, nested):
                 continue
             ctx.count("with_checker_cases")
             errs = list(cls(schema, format_checker=checker).iter_errors(top))
+            if ctx.counters.get("with_checker_cases", 0) % 3 == 0:
+                # the documented parameter order (schema, types, resolver, format_checker), handed over by position - directly
+                # and through the module-level function, which passes extra positional arguments on to the class
+                ctx.count("checker_passed_by_position")
+                pos = list(cls(schema, (), None, checker).iter_errors(top))
+                try:
+                    jsonschema.validate(top, schema, cls, (), None, checker)
+                    via_module = False
+                except X.ValidationError:
+                    via_module = True
+                if fps(pos) != fps(errs) or via_module != bool(errs):
+                    ctx.violation("positional-checker", case, "format_checker given by keyword: %d error(s); as fourth positional argument: %d; "
+                                  "validate(instance, schema, cls, (), None, checker) %s" % (len(errs), len(pos), "raises" if via_module else "passes"))
         except Exception as e:
             ctx.violation("raised", case, "%s: %s" % (type(e).__name__, str(e)[:150]))
             continue
